@@ -4,7 +4,10 @@ HOOK_COMMITS = []
 NOTES = (
     "Runtime monitoring only (DESIGN.md). Exit codes: 0 held, 1 violation (VIOLATION line + replay file), "
     "2 inconclusive (a monitor was not reached / a watchdog fired). VERIF_SEED seeds all random choices; "
-    "VERIF_REPO selects the tree (default /repo; used by ./selftest for mutants on scratch copies)."
+    "VERIF_REPO selects the tree (default /repo; used by ./selftest for mutants on scratch copies). "
+    "Known findings (genuine defects recorded, not repaired) and the list of repaired ones: known_findings.json; a "
+    "listed finding is printed as 'KNOWN-FINDING: property=<id> ...' and does not fail the check (currently one: C14, "
+    "synchronized call at module level of a spawned child's re-imported main script)."
 )
 _PENDING = "check not built yet in this session (being built; see DESIGN.md section 3)"
 
@@ -176,7 +179,7 @@ CHECKS = {
         level="exploration",
         technique="runtime monitor: offline overlap sweep over [enter, exit] interval logs of lock_tty-decorated probes from every thread and process of real multiprocessing trees (fork/spawn/forkserver) under a pty; id-echoing queries; hand-over delay and line-level yield injection",
         text="Each run is a fresh process tree (threads x children x grandchildren, created as Process(target=...) or as a Process subclass overriding run(); all processes rendezvous for a second batch so that the whole tree is demonstrably at work simultaneously; Process.start() at random moments while other threads "
-        "hammer probes and queries, in some runs with one thread inside a synchronized call for over a second across the first start, delays injected around the lock hand-over and inside the wrappers): no two synchronized intervals of "
+        "hammer probes (plain, and a functools.wraps wrapper of a synchronized function synchronized as a whole) and queries, in some runs with one thread inside a synchronized call for over a second across the first start, in some behind a relay process that never imports the library, plus a stand-alone program whose main script makes a synchronized call at module level (spawn / forkserver: known finding), delays injected around the lock hand-over and inside the wrappers): no two synchronized intervals of "
         "different threads/processes may overlap (one system-wide monotonic clock, stamps taken inside the body), every query must get "
         "exactly its own reply, nested calls must not block; hangs in >= 3 independent runs are a reproducible-hang violation, fewer are "
         "inconclusive.",
